@@ -16,4 +16,4 @@ globals().update(make(
     lambda mon, case: (['maintenance-with-part-in-process'] if any(r.maint_with_part for r in mon.refs.values()) else [])
     + (['cycle-time-changed'] if any(r.changed_cycle for r in mon.refs.values()) else [])
     + (['failure-scheduled-while-down'] if False else []),
-    quick=(400, 4), thorough=(2000, 16), noisy_p=0.25))
+    quick=(1000, 4), thorough=(2500, 16), noisy_p=0.25))
